@@ -51,7 +51,8 @@ lvars == <<S, last, g, dirty, res, hist>>
 LView == <<S, g, dirty, res>>
 
 NoGen == [st |-> "none", kind |-> "", u |-> 0, s |-> 0, d |-> 0, unk |-> 2, hide |-> {}, fv |-> NoFilter,
-          vis |-> <<>>, q |-> <<>>, fr |-> <<>>, ex |-> 0, ys |-> <<>>, plan |-> <<>>]
+          vis |-> <<>>, q |-> <<>>, fr |-> <<>>, ex |-> 0, ys |-> <<>>, plan |-> <<>>,
+          err |-> ""]        \* the exception that ended the generator, if one did (sticky)
 
 Mem(T, u) == IF u = 0 THEN NoUni ELSE Rng(T.members[UIx(u)])
 NbE(T, G, x) == NbErr(T, x, G.d, G.unk, G.fv)
@@ -59,7 +60,7 @@ NbL(T, G, x) == NbList(T, x, G.d, G.unk, G.fv)
 Frame(v, pend, ev) == [v |-> v, pend |-> pend, ev |-> ev]
 
 Stop(G)      == [g |-> [G EXCEPT !.st = "done"], out |-> 0, err |-> ""]
-RaiseG(G, e) == [g |-> [G EXCEPT !.st = "done"], out |-> 0, err |-> e]
+RaiseG(G, e) == [g |-> [G EXCEPT !.st = "done", !.err = e], out |-> 0, err |-> e]
 Yield(G, w)  == [g |-> [G EXCEPT !.st = "live", !.ys = Append(@, w)], out |-> w, err |-> ""]
 
 \* ---- ibft: FIFO queue, mark on enqueue; fr holds the vertex being expanded and the rest of its snapshot
@@ -183,7 +184,7 @@ LocalsVisited ==
   /\ g.kind = "idftr" => /\ \A k \in DOMAIN g.fr : Has(g.vis, g.fr[k].v)
                          /\ \A j, k \in DOMAIN g.fr : g.fr[j].v = g.fr[k].v => j = k
   /\ g.kind = "idfti" => (g.ex # 0 => Has(g.vis, g.ex))
-DoneIsEmpty == (g.st = "done" /\ res.err = "" /\ g.vis # <<>>) =>
+DoneIsEmpty == (g.st = "done" /\ g.err = "" /\ g.vis # <<>>) =>
                   CASE g.kind = "ibft" -> g.q = <<>> /\ g.fr = <<>>
                     [] g.kind = "idftr" -> g.fr = <<>>
                     [] g.kind = "idfti" -> g.q = <<>> /\ g.ex = 0
@@ -209,7 +210,7 @@ DiscoveredByEdge ==
                                \/ (g.kind = "idfti" /\ Has(g.q, res'.out))]_lvars   \* pushed earlier
 
 \* negative control (must be refuted): the generator is NOT a list computed at the first next()
-EagerEq == (g.st = "done" /\ res.err = "" /\ g.vis # <<>>) => g.ys = g.plan
+EagerEq == (g.st = "done" /\ g.err = "" /\ g.vis # <<>>) => g.ys = g.plan
 
 LBound == Bound /\ (HistLen > 0 => Len(hist) <= HistLen)
 DumpHist == (HistLen > 0 /\ Len(hist) = HistLen) => PrintT(ToJson(hist))
